@@ -198,6 +198,10 @@ pub(crate) mod verif_envelope {
     c14!(c14_roundtrip_p64_w48, 64, 48, 144, 0, 0, Fault::None, 60);
     //@ harness c14_roundtrip_p32_w600 tier=thorough shape="seed 32 B, wrapped key 600 B (providers may return up to 1024)" timeout=900 required=no
     c14!(c14_roundtrip_p32_w600, 32, 600, 664, 0, 0, Fault::None, 610);
+    //@ harness c14_roundtrip_p32_w128 tier=thorough shape="seed 32 B, wrapped key 128 B" timeout=600 required=no
+    c14!(c14_roundtrip_p32_w128, 32, 128, 192, 0, 0, Fault::None, 136);
+    //@ harness c14_roundtrip_p32_w520 tier=thorough shape="seed 32 B, wrapped key 520 B (just above 512)" timeout=900 required=no
+    c14!(c14_roundtrip_p32_w520, 32, 520, 584, 0, 0, Fault::None, 528);
     //@ harness c14_roundtrip_p32_w1024 tier=thorough shape="seed 32 B, wrapped key 1024 B" required=no
     c14!(c14_roundtrip_p32_w1024, 32, 1024, 1088, 0, 0, Fault::None, 1030);
     //@ harness c14_tamper_p32_w32 tier=thorough shape="seed 32 B, wrapped 32 B: any single byte at any position >= 4 xor any nonzero value"
